@@ -553,6 +553,87 @@ def r15_3(prog, rep):
             rep.note(rid, tname + "/month-lengths", "src/%s.c" % tname, "information: month lengths other than 29/30 occur: %s" % odd)
 
 
+_INTERCALARY = {   # the four tabular variants (years of the 30-year cycle with a 30th day in the twelfth month)
+    0: (2, 5, 7, 10, 13, 15, 18, 21, 24, 26, 29),
+    1: (2, 5, 7, 10, 13, 16, 18, 21, 24, 26, 29),
+    2: (2, 5, 8, 10, 13, 16, 19, 21, 24, 27, 29),
+    3: (2, 5, 8, 11, 13, 16, 19, 21, 24, 27, 30),
+}
+_TYPN = ("I", "II", "III", "IV")
+
+
+def r15_8(prog, rep, tier="quick"):
+    """The arithmetic (tabular) Hijri scales: hij2mjd(), mjd2hij() and __hij_inty_p() are walked with fixed arguments — every
+    variant, both epochs, whole 30-year cycles, the first and last days of every month (thorough: every day of two cycles) — and
+    compared with the tabular calendar: consecutive dates get consecutive day numbers, the day number converts back to the date it
+    came from, and the twelfth month has 30 days exactly in the variant's intercalary years.  Nothing of echse runs."""
+    from .c08 import _walk_fn
+    rid = "R15.8"
+    try:
+        h2m = prog.fn("hij2mjd", "scale.c")
+        m2h = prog.fn("mjd2hij", "scale.c")
+        inty = prog.fn("__hij_inty_p", "scale.c")
+    except Exception:
+        rep.broken(rid, "scale.c: hij2mjd / mjd2hij / __hij_inty_p not found")
+        return
+    y0, y1 = (1381, 1441) if tier == "thorough" else (1411, 1441)
+    epos = (0, 1) if tier == "thorough" else (0,)
+
+    def leap(t, y):
+        return ((y - 1) % 30 + 1) in _INTERCALARY[t]
+    classes = {}    # key -> [examples]
+    n = 0
+
+    def bad(key, loc, ex):
+        classes.setdefault((key, loc), []).append(ex)
+    for t in range(4):
+        # (c) the intercalary years
+        for y in range(1, 61):
+            got = _walk_fn(prog, inty, [t, 0, y])
+            n += 1
+            if got is None or bool(got) != leap(t, y):
+                cls = "year-of-cycle-%d" % ((y - 1) % 30 + 1)
+                bad("__hij_inty_p/type-%s/%s" % (_TYPN[t], cls), inty.loc(),
+                    "year %d of type %s: %s, the tabular calendar says %s" % (y, _TYPN[t], "undecided" if got is None else ("intercalary" if got else "common"), "intercalary" if leap(t, y) else "common"))
+        for e in epos:
+            base = None
+            want = 0
+            for y in range(y0, y1 + 1):
+                for m in range(1, 13):
+                    nd = 29 + (m % 2) + (1 if (m == 12 and leap(t, y)) else 0)
+                    days = range(1, nd + 1) if tier == "thorough" else sorted({1, 2, nd - 1, nd})
+                    for d in days:
+                        j = _walk_fn(prog, h2m, [t, e, {"y": y, "m": m, "d": d}])
+                        n += 1
+                        w = want + d - 1
+                        if base is None and j is not None:
+                            base = j - w
+                        cyc = "year=0-mod-30" if y % 30 == 0 else ("year=%d-mod-30" % (y % 30) if (m == 12 and d == 30) else "other-years")
+                        day = "dhu-al-hijja-30" if (m == 12 and d == 30) else "any-day"
+                        if j is None or j - base != w:
+                            bad("hij2mjd/type-%s/%s/%s" % (_TYPN[t], "year=0-mod-30" if y % 30 == 0 else "other-years", day), h2m.loc(),
+                                "%d-%02d-%02d (type %s, epoch %d) gets day number %s, %s expected from %d-01-01" % (y, m, d, _TYPN[t], e, j, base + w if base is not None else "?", y0))
+                            jj = base + w if base is not None else None
+                        else:
+                            jj = j
+                        if jj is None:
+                            continue
+                        back = _walk_fn(prog, m2h, [t, e, jj], whole=True)
+                        n += 1
+                        if back != (y, m, d):
+                            bad("mjd2hij/type-%s/%s/%s" % (_TYPN[t], "year=0-mod-30" if y % 30 == 0 else "other-years", day), m2h.loc(),
+                                "day number %d (%d-%02d-%02d, type %s, epoch %d) converts back to %s" % (jj, y, m, d, _TYPN[t], e, "nothing definite" if back is None else "%s-%s-%s" % back))
+                    want += nd
+    for (key, loc), exs in sorted(classes.items()):
+        rep.fail(rid, key, loc, "%d case(s) disagree with the tabular calendar, e.g. %s" % (len(exs), "; ".join(exs[:3])), {"examples": exs[:20]})
+    keys = {k for k, _ in classes}
+    for t in range(4):
+        for fn_, f_ in (("hij2mjd", h2m), ("mjd2hij", m2h), ("__hij_inty_p", inty)):
+            if not any(k.startswith("%s/type-%s/" % (fn_, _TYPN[t])) for k in keys):
+                rep.ok(rid, "%s/type-%s" % (fn_, _TYPN[t]), f_.loc(), "agrees with the tabular calendar on every walked date (years %d..%d%s)" % (y0, y1, ", every day" if tier == "thorough" else ", month ends"))
+    rep.note(rid, "walks", h2m.loc(), "information: %d value-fixed walks" % n)
+
+
 def run(prog, rep, tier, snap):
     rep.rule("R15.1", "exhaustive, agreeing dispatch over the 11 scales in 4 switches; decoding; spelling", 50)
     rep.call(r15_1, prog, rep)
@@ -569,4 +650,6 @@ def run(prog, rep, tier, snap):
     rep.call(r15_6, prog, rep)
     rep.rule("R15.7", "computed weekdays lie in 1..7", 2)
     rep.call(r15_7, prog, rep)
+    rep.rule("R15.8", "the arithmetic Hijri variants agree with the tabular calendar: consecutive day numbers, round trip, intercalary years (value-fixed walks)", 1)
+    rep.call(r15_8, prog, rep, tier)
 READY = True
